@@ -1,5 +1,6 @@
 """C12 — encrypted amounts: structural necessary conditions on transfer generation and verification."""
 from .common import *
+import json
 from vlib import transcript
 
 META = dict(
@@ -115,6 +116,29 @@ def run(ck):
             if kind == "transfer":
                 ck.ob("DEFUSE", v.path, "sender-receiver-order", ("arg", 3) in oa[3] and ("arg", 2) in oa[4], "verify_enc_trans receives (sender_pk, receiver_pk) in that order", v.loc(bi))
 
+    # "any alteration of ciphertexts, keys, index or proof fails verification": every field of the transfer data is READ somewhere
+    # in the verification closure (a field nothing reads can be altered freely). Field reads are place projections in MIR
+    from vlib.callgraph import CallGraph as _CG
+    cb0 = crate("rs", CB)
+    cg0 = _CG([cb0])
+    for root, ty in ((E + "verify_transfer_data", "EncryptedAmountTransferData"), (E + "verify_sec_to_pub_transfer_data", "SecToPubAmountTransferData")):
+        adtn = [k for k in cb0.adts if k.endswith("encrypted_transfers::types::" + ty)]
+        if not ck.anchor(len(adtn) == 1 and root in cg0.bodies, "COV", root, "verifier and %s exist" % ty):
+            continue
+        fields = [x["name"] for x in cb0.adts[adtn[0]]["variants"][0]["fields"]]
+        used = set()
+        for p0 in cg0.reach([root]):
+            if not p0.startswith(CB + "::encrypted_transfers"):
+                continue
+            for b in cg0.bodies.get(p0, []):
+                txt = json.dumps(b["blocks"])
+                for fl in fields:
+                    if re.search(r'"f\d+:%s"' % re.escape(fl), txt):
+                        used.add(fl)
+        for fl in fields:
+            ck.ob("COV", root, "transfer-data-field-read:" + fl, fl in used,
+                  "field `%s` of the transfer data is read during verification" % fl if fl in used else
+                  "field `%s` of %s is read nowhere in the verification: altering it does not make verification fail" % (fl, ty), Fn(cg0.bodies[root][0]).loc())
     enf_module_sweep(ck, crate("rs", CB), re.compile(r"concordium_base::(encrypted_transfers|elgamal)::"), 1, "encrypted_transfers/elgamal")
 
     # c'. the accounting proof (EncTrans) zips each vector of chunk statements with its own vector of responses only after
